@@ -87,6 +87,26 @@ fn probe_one(m: &HistModel, st: &St, i: usize, proto: u16, id: u16, other_id: u1
     if other_known {
         probes.push(("behind-data-for-a-cached-id-in-the-same-packet", mk(&[("D", other_id), ("D", id)]), true));
     }
+    // record-less data for the unknown id (flowset / set length 4): still data for an unknown template
+    {
+        let mk_empty = |sets: &[(&str, u16)]| -> Vec<u8> {
+            if proto == 9 {
+                crate::wire::v9_packet(&V9Pkt::new(sets.iter().map(|(k, sid)| match *k {
+                    "T" => V9Set::Tpl(vec![V9Tpl { id: *sid, fields: lay_a.clone() }], 0),
+                    "E" => V9Set::Data(*sid, vec![]),
+                    _ => V9Set::Data(*sid, body.clone()),
+                }).collect()))
+            } else {
+                ipfix_message(&IpfixMsg::new(sets.iter().map(|(k, sid)| match *k {
+                    "T" => IpfixSet::Tpl(vec![IpfixTpl { id: *sid, fields: lay_a.clone() }], 0),
+                    "E" => IpfixSet::Data(*sid, vec![]),
+                    _ => IpfixSet::Data(*sid, body.clone()),
+                }).collect()))
+            }
+        };
+        probes.push(("record-less-alone", mk_empty(&[("E", id)]), true));
+        probes.push(("record-less-behind-decodable-data-in-the-same-packet", mk_empty(&[("T", 905), ("D", 905), ("E", id)]), false));
+    }
     let allowed = m.is_allowed(i, proto);
     for (pos, bytes, pure_probe) in probes {
         let mut p = match m.rebuild(i, &st.enc[i]) {
@@ -114,7 +134,7 @@ fn probe_one(m: &HistModel, st: &St, i: usize, proto: u16, id: u16, other_id: u1
                 Some(NetflowPacket::IPFix(x)) => {
                     let expect_before = match pos {
                         "last-set" | "middle-set" | "behind-data-for-a-cached-id-in-the-same-packet" => 1,
-                        "behind-decodable-data-in-the-same-packet" => 2,
+                        "behind-decodable-data-in-the-same-packet" | "record-less-behind-decodable-data-in-the-same-packet" => 2,
                         _ => 0,
                     };
                     let n_before = x.flowsets.iter().take_while(|s| s.header.header_id != id).count();
